@@ -15,7 +15,7 @@ from cobald.daemon.runners.service import ServiceRunner, ServiceUnit, service
 from ..symx import EngineError
 
 BOUND = 20.0
-FLAVOURS = {"asyncio": asyncio, "trio": trio, "threading": threading}
+FLAVOURS = {"asyncio": asyncio, "trio": trio, "threading": threading, "asyncio_stubborn": asyncio}
 
 
 class Outcome:
@@ -87,6 +87,18 @@ class World:
                 while not stop.is_set():
                     beats.append(time.time())
                     time.sleep(0.01)
+        elif flavour == "asyncio_stubborn":
+            # a coroutine that absorbs the first cancellation and carries on (e.g. a retry loop with a broad except)
+            async def idle():
+                absorbed = 0
+                while not stop.is_set():
+                    beats.append(time.time())
+                    try:
+                        await asyncio.sleep(0.01)
+                    except asyncio.CancelledError:
+                        absorbed += 1
+                        if absorbed > 1:
+                            raise
         elif flavour == "asyncio":
             async def idle():
                 while not stop.is_set():
